@@ -1,2 +1,3 @@
 pub mod c02;
+pub mod c03;
 pub mod c11;
